@@ -84,6 +84,12 @@ ExtraSeqs ==
 FewExtras == {<<>>, <<P("metric_unit", <<"Str">>)>>, <<P("a", <<"I64">>), P("a", <<"Str">>)>>}
 
 Extents == {"none", "point", "range"}
+\* empty (end = start) and backwards (end < start) ranges: combined with every metric header and
+\* with a small set of extra properties for every kind
+OddExtents == {"rangeEmpty", "rangeBack"}
+LiteExtras == {<<>>, <<P("a", <<"I64">>)>>, <<P("err", <<"ErrChain">>), P("lvl", <<"Level">>)>>,
+               <<P("trace_id", <<"IdTyped">>), P("span_id", <<"IdHex">>), P("span_parent", <<"IdTyped">>)>>,
+               <<P("metric_unit", <<"Str">>), P("a", <<"Seq", "F64">>)>>}
 SpanHdr == <<P("evt_kind", <<"KindSpan">>)>>
 MetricHdr(agg, v) ==
     <<P("evt_kind", <<"KindMetric">>), P("metric_name", <<"Str">>)>>
@@ -97,7 +103,12 @@ MC_Events ==
     {[kind |-> "log", extent |-> x, props |-> e] : x \in Extents, e \in ExtraSeqs}
     \cup {[kind |-> "span", extent |-> "range", props |-> SpanHdr \o e] : e \in ExtraSeqs}
     \cup {[kind |-> "metric", extent |-> x, props |-> MetricHdr(a, v) \o e] :
-              x \in Extents, a \in Aggs, v \in MetricValues, e \in FewExtras}
+              x \in Extents \cup OddExtents, a \in Aggs, v \in MetricValues, e \in FewExtras}
+    \cup (IF Tier = "small" THEN {} ELSE
+          {[kind |-> "log", extent |-> x, props |-> e] : x \in OddExtents, e \in LiteExtras}
+          \cup {[kind |-> "span", extent |-> x, props |-> SpanHdr \o e] : x \in OddExtents, e \in LiteExtras}
+          \cup {[kind |-> "metric", extent |-> x, props |-> h \o e] :
+                    x \in OddExtents, h \in MainMetricHdrs, e \in LiteExtras})
     \cup {[kind |-> "metric", extent |-> x, props |-> h \o e] :
               x \in Extents, h \in MainMetricHdrs, e \in ExtraSeqs}
 
